@@ -474,6 +474,18 @@ pub fn mutate(t: &Triple, others: &[Triple], rng: &mut Rng, opts: Opts, f: &mut 
             put_u32(&mut sg2, 0, nsp as u32);
             emit(f, t.alg, &child, &sg2, &t.pk, "chain-truncated-header-kept", "Nspk");
         }
+        // a child key that carries its parent's tree identifier (and a parent's root)
+        for (l, (po, _)) in lay.pubs.iter().enumerate() {
+            let parent_i: Vec<u8> = if l == 0 { t.pk[12..28].to_vec() } else { let (pp, _) = lay.pubs[l - 1]; t.sig[pp + 8..pp + 24].to_vec() };
+            let mut sg = t.sig.clone();
+            sg[po + 8..po + 24].copy_from_slice(&parent_i);
+            emit(f, t.alg, &t.msg, &sg, &t.pk, "child-I-equals-parent-I", &format!("pub{l}.I"));
+            if l == 0 && t.pk.len() == 28 + n {
+                let mut sg2 = t.sig.clone();
+                sg2[*po..po + 24 + n].copy_from_slice(&t.pk[4..]);
+                emit(f, t.alg, &t.msg, &sg2, &t.pk, "child-key-equals-parent-key", "pub0");
+            }
+        }
         // cross-level splice of whole signed-public-key blocks
         if lay.pubs.len() >= 2 {
             let b0 = (lay.sigs[0].start, lay.pubs[0].0 + lay.pubs[0].1);
